@@ -1,1 +1,103 @@
-//! CLI driver (filled in with the CLI-level properties).
+//! CLI driver: runs the `kestrel` binary built from the working tree (crates/cli_wt) as a process with
+//! explicit argv, scrubbed environment, no controlling terminal, private temp directory, timeout.
+use crate::keyring::{EncodedSk, Keyring};
+use kestrel_crypto::{PrivateKey, PublicKey};
+use std::ffi::OsString;
+use std::io::{Read, Write};
+use std::os::unix::process::{CommandExt, ExitStatusExt};
+use std::path::{Path, PathBuf};
+use std::process::{Command, Stdio};
+use std::sync::atomic::{AtomicU64, Ordering};
+
+pub fn kestrel_bin() -> PathBuf { PathBuf::from(std::env::var("KESTREL_BIN").unwrap_or_else(|_| "/verif/target/release/kestrel".into())) }
+
+#[derive(Clone, Debug)]
+pub enum In { Null, Bytes(Vec<u8>), File(PathBuf), Closed }
+#[derive(Clone, Debug, PartialEq)]
+pub enum Out { Capture, File(PathBuf), DevFull, ClosedPipe, Null }
+#[derive(Clone, Debug)]
+pub struct Cmd { pub args: Vec<OsString>, pub env: Vec<(String, String)>, pub stdin: In, pub stdout: Out, pub cwd: PathBuf, pub timeout_ms: u64 }
+#[derive(Clone, Debug)]
+pub struct Run { pub code: Option<i32>, pub signal: Option<i32>, pub stdout: Vec<u8>, pub stderr: Vec<u8>, pub timed_out: bool }
+impl Run {
+    pub fn stderr_s(&self) -> String { String::from_utf8_lossy(&self.stderr).into_owned() }
+    pub fn stdout_s(&self) -> String { String::from_utf8_lossy(&self.stdout).into_owned() }
+    pub fn describe(&self) -> String { format!("exit {:?} signal {:?}{} stderr {:?}", self.code, self.signal, if self.timed_out { " TIMED OUT" } else { "" }, self.stderr_s().chars().take(300).collect::<String>()) }
+}
+pub fn args(a: &[&str]) -> Vec<OsString> { a.iter().map(OsString::from).collect() }
+
+pub fn run(c: &Cmd) -> Run {
+    let mut cmd = Command::new(kestrel_bin());
+    cmd.args(&c.args).env_clear().current_dir(&c.cwd);
+    for (k, v) in &c.env { cmd.env(k, v); }
+    unsafe { cmd.pre_exec(|| { libc::setsid(); Ok(()) }); }
+    match &c.stdin { In::Null => { cmd.stdin(Stdio::null()); } In::Bytes(_) => { cmd.stdin(Stdio::piped()); } In::File(p) => { cmd.stdin(std::fs::File::open(p).map(Stdio::from).unwrap_or_else(|_| Stdio::null())); } In::Closed => { cmd.stdin(Stdio::piped()); } }
+    let mut closed_reader = None;
+    match &c.stdout {
+        Out::Capture => { cmd.stdout(Stdio::piped()); }
+        Out::File(p) => { cmd.stdout(std::fs::File::create(p).map(Stdio::from).unwrap_or_else(|_| Stdio::null())); }
+        Out::DevFull => { cmd.stdout(std::fs::OpenOptions::new().write(true).open("/dev/full").map(Stdio::from).unwrap_or_else(|_| Stdio::null())); }
+        Out::Null => { cmd.stdout(Stdio::null()); }
+        Out::ClosedPipe => { let mut fds = [0i32; 2]; unsafe { libc::pipe(fds.as_mut_ptr()); } closed_reader = Some(fds[0]); cmd.stdout(unsafe { <Stdio as std::os::fd::FromRawFd>::from_raw_fd(fds[1]) }); }
+    }
+    cmd.stderr(Stdio::piped());
+    let mut child = match cmd.spawn() { Ok(c) => c, Err(e) => return Run { code: None, signal: None, stdout: vec![], stderr: format!("spawn failed: {}", e).into_bytes(), timed_out: false } };
+    if let Some(fd) = closed_reader { unsafe { libc::close(fd); } }
+    let stdin = child.stdin.take();
+    let feeder = match (&c.stdin, stdin) { (In::Bytes(b), Some(mut si)) => { let b = b.clone(); Some(std::thread::spawn(move || { let _ = si.write_all(&b); })) } (In::Closed, Some(si)) => { drop(si); None } _ => None };
+    let so = child.stdout.take(); let se = child.stderr.take();
+    let t_out = so.map(|mut s| std::thread::spawn(move || { let mut v = Vec::new(); let _ = s.read_to_end(&mut v); v }));
+    let t_err = se.map(|mut s| std::thread::spawn(move || { let mut v = Vec::new(); let _ = s.read_to_end(&mut v); v }));
+    let start = std::time::Instant::now(); let mut timed_out = false;
+    let status = loop {
+        match child.try_wait() { Ok(Some(st)) => break Some(st), Ok(None) => {}, Err(_) => break None }
+        if start.elapsed().as_millis() as u64 > c.timeout_ms { timed_out = true; let _ = child.kill(); break child.wait().ok(); }
+        std::thread::sleep(std::time::Duration::from_micros(if start.elapsed().as_millis() < 20 { 200 } else { 2000 }));
+    };
+    if let Some(f) = feeder { let _ = f.join(); }
+    let stdout = t_out.map(|t| t.join().unwrap_or_default()).unwrap_or_default();
+    let stderr = t_err.map(|t| t.join().unwrap_or_default()).unwrap_or_default();
+    Run { code: status.and_then(|s| s.code()), signal: status.and_then(|s| s.signal()), stdout, stderr, timed_out }
+}
+
+static DIR_SEQ: AtomicU64 = AtomicU64::new(0);
+/// Private scratch directory, removed on drop.
+pub struct Sandbox { pub dir: PathBuf }
+impl Sandbox {
+    pub fn new() -> Sandbox {
+        let d = std::env::temp_dir().join(format!("kverif-{}-{}", std::process::id(), DIR_SEQ.fetch_add(1, Ordering::Relaxed)));
+        let _ = std::fs::remove_dir_all(&d); std::fs::create_dir_all(&d).expect("temp dir"); Sandbox { dir: d }
+    }
+    pub fn path(&self, name: &str) -> PathBuf { self.dir.join(name) }
+    pub fn write(&self, name: &str, data: &[u8]) -> PathBuf { let p = self.path(name); std::fs::write(&p, data).expect("write temp file"); p }
+    pub fn read(&self, name: &str) -> Option<Vec<u8>> { std::fs::read(self.path(name)).ok() }
+    pub fn cmd(&self, a: &[&str]) -> Cmd { Cmd { args: args(a), env: vec![], stdin: In::Null, stdout: Out::Capture, cwd: self.dir.clone(), timeout_ms: 60_000 } }
+}
+impl Drop for Sandbox { fn drop(&mut self) { let _ = std::fs::remove_dir_all(&self.dir); } }
+impl Cmd {
+    pub fn env(mut self, k: &str, v: &str) -> Cmd { self.env.push((k.into(), v.into())); self }
+    pub fn stdin(mut self, i: In) -> Cmd { self.stdin = i; self }
+    pub fn stdout(mut self, o: Out) -> Cmd { self.stdout = o; self }
+    pub fn run(&self) -> Run { run(self) }
+}
+
+/// An identity usable on the command line: the private key is locked with the implementation's own
+/// lock (so that a format drift is reported under C15 only), the password is known.
+#[derive(Clone, Debug)]
+pub struct CliIdent { pub name: String, pub sk: [u8; 32], pub pk: [u8; 32], pub epk: String, pub esk: String, pub password: String }
+pub fn make_ident(name: &str, seed: u64, password: &str) -> CliIdent {
+    let sk = crate::gen::key32(seed, "cli-ident"); let pk = kspec::x25519_base(&sk);
+    let esk = Keyring::lock_private_key(&PrivateKey::try_from(&sk[..]).unwrap(), password.as_bytes(), crate::gen::key32(seed, "cli-salt"));
+    let epk = Keyring::encode_public_key(&PublicKey::try_from(&pk[..]).unwrap());
+    CliIdent { name: name.into(), sk, pk, epk: epk.as_str().into(), esk: esk.as_str().into(), password: password.into() }
+}
+pub fn keyring_text(entries: &[(&CliIdent, bool)]) -> String {
+    let mut s = String::new();
+    for (i, (id, with_sk)) in entries.iter().enumerate() {
+        if i > 0 { s.push('\n'); }
+        if *with_sk { s.push_str(&Keyring::serialize_key(&id.name, &crate::keyring::EncodedPk::try_from(id.epk.as_str()).unwrap(), &EncodedSk::try_from(id.esk.as_str()).unwrap())); }
+        else { s.push_str(&format!("[Key]\nName = {}\nPublicKey = {}\n", id.name, id.epk)); }
+    }
+    s
+}
+pub fn exists(p: &Path) -> bool { std::fs::symlink_metadata(p).is_ok() }
